@@ -4,3 +4,4 @@ import PlumpyModel.Expose.Proof
 import PlumpyModel.Ports.Model
 import PlumpyModel.Savable.Proof
 import PlumpyModel.Props.C20
+import PlumpyModel.Launcher.Proof
